@@ -1523,6 +1523,9 @@ pub mod families {
             Entry::Item(Expr::var("x")),
             Entry::Item(Expr::str("s")),
             Entry::Item(Expr::array(vec![Expr::int(2)])),
+            // a negative number literal: a unary minus on a constant (seeded change C02-9 counted it
+            // as a literal and the constant folding of containers then dropped it)
+            Entry::Item(Expr::un(UnOp::Neg, Expr::int(3))),
             Entry::Spread(Expr::var("xs")),
             Entry::Spread(Expr::var("e")),
             Entry::Spread(Expr::array(vec![Expr::int(7), Expr::int(8)])),
@@ -1541,6 +1544,7 @@ pub mod families {
             MapEntry::Kv(k("a"), Expr::int(2)),
             MapEntry::Kv(k("b"), Expr::var("x")),
             MapEntry::Kv(k("c"), Expr::str("s")),
+            MapEntry::Kv(k("d"), Expr::un(UnOp::Neg, Expr::int(3))),
             MapEntry::Spread(Expr::var("m")),
             MapEntry::Spread(Expr::var("m2")),
             MapEntry::Spread(Expr::var("em")),
